@@ -237,7 +237,10 @@ class Gen:
 
     def f32(self):
         r = self.rng
-        k = r.randrange(6)
+        k = r.randrange(7)
+        if k == 6:
+            # whole numbers beyond the 32-bit integer range stay reals (they are not integers of the object model)
+            return r.choice([3e9, -1e10, 2147483648.0, 4294967296.0, -4294967296.0, 1e12])
         if k == 0:
             return r.randint(-1000, 1000)
         if k == 1:
